@@ -147,13 +147,14 @@ theorem renSpec_other (m : Flat) (ps : List (Ent × Ent)) (q : Path) (hq : ∀ p
   by_cases hs : ∃ pr ∈ ps, pr.1.path = q
   · obtain ⟨pr, hpr, he⟩ := hs
     have : ps.any (fun pr => pr.1.path == q) = true := List.any_eq_true.mpr ⟨pr, hpr, by simp [he]⟩
-    rw [this, if_pos ⟨pr, hpr, he⟩]; rfl
+    have hex : ∃ pr ∈ ps, pr.1.path = q := ⟨pr, hpr, he⟩
+    simp [this, hex]
   · have : ps.any (fun pr => pr.1.path == q) = false := by
       rw [List.any_eq_false]
       intro pr hpr hc
       simp only [beq_iff_eq] at hc
       exact hs ⟨pr, hpr, hc⟩
-    rw [this, if_neg hs]; rfl
+    simp [this, hs]
 
 /-- the paths still to be deleted after the rename pass: those no rename landed on -/
 theorem renamePass_dels (ps : List (Ent × Ent)) (dels : List Path) (q : Path) :
@@ -212,10 +213,11 @@ theorem renamePass_apply (ps : List (Ent × Ent)) (dels : List Path) (m : Flat) 
     have hpw := List.pairwise_cons.mp hind.1
     simp only [renamePass, hnd, Bool.not_false, Bool.and_true, Bool.false_eq_true, if_false]
     rw [applyCmds_append]
+    generalize decide (n.path ∈ dels) = pre
     -- after this rename
-    have hm1 := lookup_one_rename m o.path n.path o.val (decide (n.path ∈ dels)) hso hon
+    have hm1 := lookup_one_rename m o.path n.path o.val pre hso hon
     -- the remaining renames
-    have hsrc' : ∀ pr ∈ ps, lookup (applyCmds m ((if decide (n.path ∈ dels) = true then [Cmd.del n.path] else []) ++ [Cmd.ren o.path n.path])) pr.1.path = some pr.1.val := by
+    have hsrc' : ∀ pr ∈ ps, lookup (applyCmds m ((if pre = true then [Cmd.del n.path] else []) ++ [Cmd.ren o.path n.path])) pr.1.path = some pr.1.val := by
       intro pr hpr
       rw [hm1]
       have h1 : pr.1.path ≠ n.path := fun e => hind.2 (o, n) List.mem_cons_self pr (List.mem_cons_of_mem _ hpr) e.symm
@@ -224,35 +226,39 @@ theorem renamePass_apply (ps : List (Ent × Ent)) (dels : List Path) (m : Flat) 
       exact hsrc pr (List.mem_cons_of_mem _ hpr)
     rw [ih _ _ hind.tail (fun pr hpr => hfile pr (List.mem_cons_of_mem _ hpr)) hsrc']
     -- compare the two specifications
-    unfold renSpec
-    simp only [List.find?_cons, List.any_cons]
     by_cases hq : q = n.path
     · subst hq
-      have hf : ps.find? (fun pr => pr.2.path == n.path) = none := by
-        rw [List.find?_eq_none]
-        intro pr hpr hc
-        simp only [beq_iff_eq] at hc
-        exact (hpw.1 pr hpr).2 hc.symm
-      have ha : ps.any (fun pr => pr.1.path == n.path) = false := by
-        rw [List.any_eq_false]
-        intro pr hpr hc
-        simp only [beq_iff_eq] at hc
-        exact hind.2 (o, n) List.mem_cons_self pr (List.mem_cons_of_mem _ hpr) hc.symm
-      rw [hf, ha, hm1]
+      rw [renSpec_target m _ hind o n List.mem_cons_self,
+        renSpec_other _ ps n.path (fun pr hpr => ((hpw.1 pr hpr).2).symm)]
+      have hno : ¬ ∃ pr ∈ ps, pr.1.path = n.path := by
+        rintro ⟨pr, hpr, he⟩
+        exact hind.2 (o, n) List.mem_cons_self pr (List.mem_cons_of_mem _ hpr) he.symm
+      rw [if_neg hno, hm1]
       simp
-    · have hnq : (n.path == q) = false := by simp [Ne.symm hq]
-      simp only [hnq]
-      cases hf : ps.find? (fun pr => pr.2.path == q) with
-      | some x => rfl
-      | none =>
-        simp only
-        by_cases ha : ps.any (fun pr => pr.1.path == q) = true
-        · simp [ha]
-        · have ha' : ps.any (fun pr => pr.1.path == q) = false := by simpa using ha
-          rw [ha', hm1]
+    · by_cases ht : ∃ pr ∈ ps, pr.2.path = q
+      · obtain ⟨⟨o', n'⟩, hpr, he⟩ := ht
+        simp only at he
+        subst he
+        rw [renSpec_target _ ps hind.tail o' n' hpr, renSpec_target m _ hind o' n' (List.mem_cons_of_mem _ hpr)]
+      · have hq1 : ∀ pr ∈ ps, pr.2.path ≠ q := fun pr hpr he => ht ⟨pr, hpr, he⟩
+        have hq2 : ∀ pr ∈ (o, n) :: ps, pr.2.path ≠ q := by
+          intro pr hpr
+          rcases List.mem_cons.mp hpr with h | h
+          · subst h; exact fun e => hq e.symm
+          · exact hq1 pr h
+        rw [renSpec_other _ ps q hq1, renSpec_other m _ q hq2]
+        by_cases hs : ∃ pr ∈ ps, pr.1.path = q
+        · obtain ⟨pr, hpr, he⟩ := hs
+          rw [if_pos ⟨pr, hpr, he⟩, if_pos ⟨pr, List.mem_cons_of_mem _ hpr, he⟩]
+        · rw [if_neg hs, hm1]
+          simp only [hq, if_false]
           by_cases hqo : q = o.path
-          · simp [hq, hqo]
-          · have : (o.path == q) = false := by simp [Ne.symm hqo]
-            simp [hq, hqo, this]
+          · rw [if_pos hqo, if_pos ⟨(o, n), List.mem_cons_self, hqo.symm⟩]
+          · have : ¬ ∃ pr ∈ (o, n) :: ps, pr.1.path = q := by
+              rintro ⟨pr, hpr, he⟩
+              rcases List.mem_cons.mp hpr with h | h
+              · subst h; exact hqo he.symm
+              · exact hs ⟨pr, h, he⟩
+            rw [if_neg hqo, if_neg this]
 
 end BreezyVerif.C44
